@@ -46,7 +46,18 @@ func mutateArgs(r *Rng, a []string) []string {
 	return a
 }
 
+var c12Payloads = []string{"", "x", "a\r\nb", "\r\n", "\x00", "\x00lead", "trail\x00", "+OK", "-ERR x", "$5", "*2", ":1",
+	strings.Repeat("p", 1023), strings.Repeat("q", 1024), strings.Repeat("r", 1025), strings.Repeat("s", 8150), strings.Repeat("t", 8191), strings.Repeat("u", 8192), strings.Repeat("v", 8193), strings.Repeat("w", 16384), "\xff\xfe binary"}
+
 func genC12(r *Rng, tier string, idx int) *Plan {
+	switch idx % 4 {
+	case 1:
+		return genC12Stream(r, tier)
+	case 2:
+		return genC12Garbage(r, tier)
+	case 3:
+		return genC12Payload(r, tier)
+	}
 	p := &Plan{Profile: "cmds", Knobs: map[string]int64{}, SKnobs: map[string]string{}}
 	g := &GenCfg{Keys: []string{"k1", "k2", "k3"}, NowMs: 946684800000}
 	p.Init = g.SeedOps(r, r.Range(0, 5))
@@ -66,6 +77,14 @@ func inputClass(a []string) string {
 }
 
 func runC12(t *testing.T, p *Plan) *Outcome {
+	switch p.Profile {
+	case "stream":
+		return runC12Stream(t, p)
+	case "garbage":
+		return runC12Garbage(t, p)
+	case "payload":
+		return runC12Payload(t, p)
+	}
 	o := &Outcome{}
 	br := RunBubble(t, func() {
 		s := NewSim()
